@@ -29,6 +29,7 @@
 #include "common/vharness.hpp"
 #include "celma/prog_args.hpp"
 #include "celma/prog_args/groups.hpp"
+#include "celma/prog_args/level_counter.hpp"
 #include "celma/prog_args/eval_argument_string.hpp"
 #include "celma/appl/arg_string_2_array.hpp"
 
@@ -101,6 +102,12 @@ struct DblSlot : ISlot {
       if (q == static_cast<double>(static_cast<long long>(q)) && q < 1e9 && q > -1e9) return std::to_string(static_cast<long long>(q));
       return "\"inexact\"";
    }
+};
+struct LevelSlot : ISlot {
+   celma::prog_args::LevelCounter v;
+   explicit LevelSlot(const vj::Value& init) : v(static_cast<int>(init.num())) {}
+   TypedArgBase* dest(const std::string& n) override { return celma::prog_args::destination(v, n); }
+   std::string json() const override { return std::to_string(v.value()); }
 };
 struct StrSlot : ISlot {
    std::string v;
@@ -188,6 +195,7 @@ static std::unique_ptr<ISlot> makeSlot(const std::string& kind, const vj::Value&
    if (kind == "int") return std::make_unique<IntSlot>(init);
    if (kind == "str") return std::make_unique<StrSlot>(init);
    if (kind == "dbl") return std::make_unique<DblSlot>(init);
+   if (kind == "level") return std::make_unique<LevelSlot>(init);
    if (kind == "optint") return std::make_unique<OptIntSlot>(init);
    if (kind == "vecint") return std::make_unique<IntContSlot<std::vector<int>>>(init);
    if (kind == "setint") return std::make_unique<IntContSlot<std::set<int>>>(init);
@@ -255,7 +263,7 @@ static int handlerFlags(const vj::Value& cfg) {
 static void applyArgSettings(const vj::Value& cfg, const vj::Value& a, TypedArgBase* t) {
    using namespace celma::prog_args;
    const std::string vm = a["vm"].str();
-   if (vm == "opt") t->setValueMode(Handler::ValueMode::optional);
+   if (vm == "opt" && a["kind"].str() != "level") t->setValueMode(Handler::ValueMode::optional);
    else if (vm == "req" && a["kind"].str() == "flag") t->setValueMode(Handler::ValueMode::required);
    if (a["unset"].boolean()) t->unsetFlag();
    if (a["mand"].boolean()) t->setIsMandatory();
@@ -290,6 +298,7 @@ static void applyArgSettings(const vj::Value& cfg, const vj::Value& a, TypedArgB
    if (a["uniq"].str() == "ignore") t->setUniqueData(false);
    else if (a["uniq"].str() == "error") t->setUniqueData(true);
    if (a["multi"].boolean()) t->setTakesMultiValue();
+   if (a["mix"].boolean()) t->setAllowMixIncSet();
    if (a["hidden"].boolean()) t->setIsHidden();
    if (a["depr"].boolean()) t->setIsDeprecated();
    if (a["repl"].size() > 0) t->setReplacedBy(a["repl"].bytes());
